@@ -53,6 +53,25 @@ static std::vector<CheckDef> g_checks = {
           "states; distinct_nontrivial: distinct (algorithm, family, reject kind, |in flight| at the reject, API level) cells with a "
           "before/after image comparison",
           { "the error field of the rejected context is the reported result and is exempt from the byte-image comparison" } },
+        { "C05", "exploration", { { "stream", 1 } }, 30000, 3000000, 50, 900, false, false,
+          "cases: seeded plans of 1-4 interleaved stream clients (mh_sha1 / mh_sha256 biased) x family x stream length class x fragmentation x "
+          "restart; distinct_nontrivial: distinct (kind, family, carried bytes / 64, fragment class) cells exercised",
+          { "multi-hash reference written from the property text, byte order of the final hash input taken from the pinned implementation",
+            "sampling, not proof" } },
+        { "C10", "exploration", { { "stream", 1 } }, 30000, 3000000, 50, 900, false, false,
+          "cases: as C05 with mh_sha1_murmur3_x64_128 clients and a 64-bit seed per stream; distinct_nontrivial: distinct (family, carried bytes / 64, "
+          "fragment class) cells",
+          { "MurmurHash3_x64_128 reference checked against published vectors at start-up" } },
+        { "C09", "exploration", { { "stream", 1 } }, 12000, 3000000, 50, 900, false, false,
+          "cases: rolling-hash clients (window 1..48, mask/trigger classes, scan implementation base/_00/_04) fed by arbitrary run-call "
+          "splits, twin clients on the same stream, one >= 2^31-byte run per implementation; distinct_nontrivial: distinct "
+          "(implementation, w, max_len class, hit position class) cells",
+          { "golden copy of the 256-entry table frozen in /verif defines the hash", "sampling, not proof" } },
+        { "C07", "exploration", { { "stream", 1 } }, 30000, 3000000, 50, 900, false, false,
+          "cases: AES-GCM streaming clients (key size x family x enc/dec x in/out of place x nt) under arbitrary update splits, contexts sharing "
+          "key data, restarts; oracle = one-shot call of the same family; distinct_nontrivial: distinct (family, key size, direction, "
+          "carried partial length, fragment residue, fragment class, nt, in-place) cells",
+          { "the one-shot call of the same family is the oracle, not an object under test (that would be C02)" } },
 };
 
 static const CheckDef *find_check(const std::string &p)
